@@ -517,15 +517,15 @@ Print Assumptions C17_nushell_script_quote_in_name_refuted.
 From ClapModel Require Import Complete.AotTree Complete.FishModel Complete.FishLexProofs Complete.ZshModel Complete.ZshProofs Complete.ZshLexProofs.
 
 (** the fixed text of the file does not depend on the description texts (every tree) *)
-Theorem C17_zsh_script_fixed_text : forall bl c d,
-  zsh_pieces bl c (erase_desc d) = option_map' (map zperase) (zsh_pieces bl c d).
+Theorem C17_zsh_script_fixed_text : forall c d,
+  zsh_pieces c (erase_desc d) = option_map' (map zperase) (zsh_pieces c d).
 Proof. exact zsh_pieces_erase. Qed.
 Print Assumptions C17_zsh_script_fixed_text.
 
 (** every slot of the file of a tame tree is met by zsh's word lexer inside a single-quoted word, whatever the texts;
     the file ends between words *)
-Theorem C17_zsh_script_slots_quoted : forall bl c d ps,
-  ztame_cmd c = true -> zsh_pieces bl c d = Some ps -> exists st, zrun ZB ps = Some st /\ zbare st = true.
+Theorem C17_zsh_script_slots_quoted : forall c d ps,
+  ztame_cmd c = true -> zsh_pieces c d = Some ps -> exists st, zrun ZB ps = Some st /\ zbare st = true.
 Proof. exact zsh_file_runs. Qed.
 Print Assumptions C17_zsh_script_slots_quoted.
 
@@ -533,9 +533,9 @@ Print Assumptions C17_zsh_script_slots_quoted.
     ([zpskel]), and the level-1 payload -- what zsh hands to [_arguments] and [_describe] after quote removal -- is the
     fixed payload plus, per slot, the level-1 image of the text ([zplits]: [zsh_l1] / [zsh_pos_l1], to which the level-2
     theorems [C17_zsh_spec_description], [C17_zsh_spec_field], [C17_zsh_positional_field] apply) *)
-Theorem C17_zsh_script_texts_literal : forall bl c d,
-  ztame_cmd c = true -> forall ps, zsh_pieces bl c d = Some ps ->
-  exists s, zsh_script bl c d = Some s /\
+Theorem C17_zsh_script_texts_literal : forall c d,
+  ztame_cmd c = true -> forall ps, zsh_pieces c d = Some ps ->
+  exists s, zsh_script c d = Some s /\
     skeleton (events sh_step ZB s) = zpskel ZB ps /\ lits (events sh_step ZB s) = zplits ZB ps /\
     zbare (final sh_step ZB s) = true.
 Proof. exact zsh_texts_literal. Qed.
@@ -543,18 +543,18 @@ Print Assumptions C17_zsh_script_texts_literal.
 
 (** the token skeleton and the final lexer state of the ENTIRE file are the same for any two assignments of description
     texts with the same presence shape *)
-Theorem C17_zsh_script_same_skeleton : forall bl c d1 d2 s1,
-  ztame_cmd c = true -> erase_desc d1 = erase_desc d2 -> zsh_script bl c d1 = Some s1 ->
-  exists s2, zsh_script bl c d2 = Some s2 /\
+Theorem C17_zsh_script_same_skeleton : forall c d1 d2 s1,
+  ztame_cmd c = true -> erase_desc d1 = erase_desc d2 -> zsh_script c d1 = Some s1 ->
+  exists s2, zsh_script c d2 = Some s2 /\
     skeleton (events sh_step ZB s1) = skeleton (events sh_step ZB s2) /\
     final sh_step ZB s1 = final sh_step ZB s2.
 Proof. exact zsh_text_invariance. Qed.
 Print Assumptions C17_zsh_script_same_skeleton.
 
 (** the pair of files the harness generates for the oracle (texts as given / innocuous text of the same emptiness) *)
-Theorem C17_zsh_script_adversarial_innocuous : forall bl c d s1,
-  ztame_cmd c = true -> zsh_script bl c d = Some s1 ->
-  exists s2, zsh_script bl c (innocuous_desc d) = Some s2 /\
+Theorem C17_zsh_script_adversarial_innocuous : forall c d s1,
+  ztame_cmd c = true -> zsh_script c d = Some s1 ->
+  exists s2, zsh_script c (innocuous_desc d) = Some s2 /\
     skeleton (events sh_step ZB s1) = skeleton (events sh_step ZB s2) /\
     final sh_step ZB s1 = final sh_step ZB s2.
 Proof. exact zsh_adversarial_innocuous. Qed.
@@ -564,7 +564,7 @@ Print Assumptions C17_zsh_script_adversarial_innocuous.
     backslash in every slot against innocuous texts; both files exist and differ *)
 Theorem C17_zsh_script_nonvacuous :
   ztame_cmd zx_root = true /\ erase_desc zl_adv = erase_desc zl_inn /\ zl_adv <> zl_inn /\
-  exists s1 s2, zsh_script bl0 zx_root zl_adv = Some s1 /\ zsh_script bl0 zx_root zl_inn = Some s2 /\ s1 <> s2.
+  exists s1 s2, zsh_script zx_root zl_adv = Some s1 /\ zsh_script zx_root zl_inn = Some s2 /\ s1 <> s2.
 Proof. exact zsh_text_invariance_hyps. Qed.
 Print Assumptions C17_zsh_script_nonvacuous.
 
@@ -573,10 +573,30 @@ Print Assumptions C17_zsh_script_nonvacuous.
 Theorem C17_zsh_script_untamed_name_refuted :
   exists c d1 d2 s1 s2,
     ztame_cmd c = false /\ erase_desc d1 = erase_desc d2 /\
-    zsh_script bl0 c d1 = Some s1 /\ zsh_script bl0 c d2 = Some s2 /\
+    zsh_script c d1 = Some s1 /\ zsh_script c d2 = Some s2 /\
     skeleton (events sh_step ZB s1) <> skeleton (events sh_step ZB s2).
 Proof. exact zsh_untamed_name_refuted. Qed.
 Print Assumptions C17_zsh_script_untamed_name_refuted.
+(** round 4: [ztame_cmd] also asks the VALUE NAMES (written as they are between the colons of an option spec) and the value
+    terminators (written through [escape_value]) to be free of quotes, backslashes and hashes.  Satisfiable with both, and
+    sharp for value names: a quote in a value name ends the quoted spec early and the help of the NEXT option is read
+    outside the quotes (family of the recorded finding C17-names-unescaped) *)
+Theorem C17_zsh_script_value_name_terminator_nonvacuous :
+  ztame_cmd zl_ext_cmd = true /\
+  exists s, zsh_script zl_ext_cmd cd0 = Some s /\
+    binfix [39; 45; 45; 111; 117; 116; 61; 91; 93; 58; 70; 73; 76; 69; 58; 95; 100; 101; 102; 97; 117; 108; 116; 39; 32; 92] s = true /\
+    binfix [39; 42; 97; 92; 32; 98; 59; 58; 58; 115; 114; 99; 58; 95; 100; 101; 102; 97; 117; 108; 116; 39; 32; 92] s = true /\
+    binfix [39; 58; 58; 114; 101; 115; 116; 58; 95; 100; 101; 102; 97; 117; 108; 116; 39; 32; 92] s = true.
+Proof. exact zsh_tame_value_name_terminator. Qed.
+Print Assumptions C17_zsh_script_value_name_terminator_nonvacuous.
+
+Theorem C17_zsh_script_untamed_value_name_refuted :
+  exists c d1 d2 s1 s2,
+    ztame_cmd c = false /\ erase_desc d1 = erase_desc d2 /\
+    zsh_script c d1 = Some s1 /\ zsh_script c d2 = Some s2 /\
+    skeleton (events sh_step ZB s1) <> skeleton (events sh_step ZB s2).
+Proof. exact zsh_untamed_value_name_refuted. Qed.
+Print Assumptions C17_zsh_script_untamed_value_name_refuted.
 (** Level 2: the [_arguments] specs and [_describe] items.  [spec_line c d g line]: [line] is one of the quoted spec
     lines the model writes for the command [c] (an option spec per spelling, a flag spec per spelling, a positional
     spec, a ['name:about'] item per subcommand name or visible alias); the C16 theorems [C16_zsh_block_options],
@@ -595,25 +615,25 @@ Print Assumptions C17_zsh_level2_events.
 (** every spec line of a tame command runs at both levels and ends on the continuation backslash ([gtame g]: the parent
     command handed to [arg_conflicts] for global arguments is tame too -- the exclusion list [(-x --exclude)] is fixed text
     made of option spellings) *)
-Theorem C17_zsh_spec_lines_run : forall bl c d g line st,
-  ztame_cmd c = true -> gtame g -> spec_line bl c d g line -> zbare st = true ->
+Theorem C17_zsh_spec_lines_run : forall c d g line st,
+  ztame_cmd c = true -> gtame g -> spec_line c d g line -> zbare st = true ->
   exists s2, zrun2 st ZsPre line = Some (ZBS, s2).
 Proof. exact zsh_spec_lines_run2. Qed.
 Print Assumptions C17_zsh_spec_lines_run.
 
 (** level-2 structure invariance per spec line: any line with the same fixed text has the same [_arguments]-level token
     skeleton and final state -- brackets and colons in a help, about or tooltip text never become structure *)
-Theorem C17_zsh_spec_line_level2 : forall bl c d g line line' st,
-  ztame_cmd c = true -> gtame g -> spec_line bl c d g line -> zbare st = true -> map zperase line = map zperase line' ->
+Theorem C17_zsh_spec_line_level2 : forall c d g line line' st,
+  ztame_cmd c = true -> gtame g -> spec_line c d g line -> zbare st = true -> map zperase line = map zperase line' ->
   skeleton (events zspec_step ZsPre (payload line st)) = skeleton (events zspec_step ZsPre (payload line' st)) /\
   final zspec_step ZsPre (payload line st) = final zspec_step ZsPre (payload line' st).
 Proof. exact zsh_spec_line_level2. Qed.
 Print Assumptions C17_zsh_spec_line_level2.
 
 (** the lines written for other texts of the same presence shape are such lines *)
-Theorem C17_zsh_spec_lines_fixed_text : forall bl c g a ad card about w,
-  opt_lines bl c g (a, erase_adesc ad) = map (map zperase) (opt_lines bl c g (a, ad)) /\
-  flag_lines bl c g (a, erase_adesc ad) = map (map zperase) (flag_lines bl c g (a, ad)) /\
+Theorem C17_zsh_spec_lines_fixed_text : forall c g a ad card about w,
+  opt_lines c g (a, erase_adesc ad) = map (map zperase) (opt_lines c g (a, ad)) /\
+  flag_lines c g (a, erase_adesc ad) = map (map zperase) (flag_lines c g (a, ad)) /\
   positional_line card (a, erase_adesc ad) = map zperase (positional_line card (a, ad)) /\
   describe_entry (erase_opt about) w = map zperase (describe_entry about w).
 Proof. exact spec_lines_fixed_text. Qed.
